@@ -89,6 +89,7 @@ class Rig:
                 self.peer = None
                 return False
         self.rxbuf = b""
+        self._rx_total = 0
         self.sim.settle()
         return True
 
@@ -105,8 +106,17 @@ class Rig:
         """Read what the endpoint sent; return newly completed frames (ref.e37 dicts)."""
         if self.peer is None:
             return []
-        self.rxbuf += self.peer.recv_all()
+        new = self.peer.recv_all()
+        self.rxbuf += new
+        self._rx_total = getattr(self, "_rx_total", 0) + len(new)
+        before = len(self.rxbuf)
         frames, self.rxbuf = e37.parse(self.rxbuf)
+        # virtual send time of each frame = time of the socket.send call that carried its last byte
+        src = self.peer.peer
+        pos = self._rx_total - before
+        for f in frames:
+            pos += 14 + len(f["body"])
+            f["t"] = next((t for (cum, t) in (src.tx_times if src is not None else []) if cum >= pos), self.sim.now)
         self.frames_out.extend(frames)
         return frames
 
